@@ -615,3 +615,18 @@ Proof.
   split; [apply and_spec; assumption|]. split; [apply or_spec; assumption|].
   split; [apply xor_spec; assumption|apply nand_spec; assumption].
 Qed.
+
+Lemma mul_width_statement_refuted :
+  ~ (forall a b, wf a -> wf b -> wd (op_mul a b) = wd a + wd b).
+Proof.
+  intros H. destruct mul_width_refuted as [a [b [Ha [Hb Hne]]]]. apply Hne. apply H; assumption.
+Qed.
+
+(* concat_list: element 0 least significant *)
+Lemma concat_list_spec args : Forall wf args -> args <> [] ->
+  concat_list args = (concat_val (rev args), sumw (rev args)).
+Proof.
+  intros H Hne. unfold concat_list. apply concat_first_msb.
+  - apply Forall_rev. assumption.
+  - intro E. apply Hne. apply (f_equal (@rev sv)) in E. rewrite rev_involutive in E. exact E.
+Qed.
